@@ -100,11 +100,22 @@ fn gen_sample(rng: &mut Rng) -> [u8; 40] {
     for x in b.iter_mut().take(36).skip(32) {
         *x = rng.next_u64() as u8;
     }
-    let magic: i32 = match rng.below(12) {
+    let magic: i32 = match rng.below(14) {
         0 => MAGIC ^ (1 << (rng.below(32) as i32)), // one bit off
         1 => rng.next_u64() as i32,
         2 => MAGIC.swap_bytes(),
         3 => 0,
+        // wrong magics that are not text: high bytes, lone UTF-8 lead / continuation bytes (whatever renders
+        // the magic when the rejection is logged must cope with them)
+        4 | 5 => {
+            let mut m = [b'S', b'O', b'C', b'K'];
+            let n = rng.usize(1, 4);
+            for _ in 0..n {
+                let i = rng.usize(0, 3);
+                m[i] = *rng.pick(&[0xffu8, 0xfe, 0x80, 0xc3, 0xc0, 0xe2, 0xf0, 0xbf, 0x00, 0x7f]);
+            }
+            i32::from_be_bytes(m)
+        }
         _ => MAGIC,
     };
     b[36..40].copy_from_slice(&magic.to_le_bytes());
@@ -135,6 +146,12 @@ fn gen_deser_case(rng: &mut Rng, idx: u64, _run: &Run) -> Vec<String> {
     let witness: [u64; 4] = [0x7ff8000000000000, 0x7ff0000000000000, 0xfff0000000000000, 0x7ff0000000000001];
     if (idx as usize) < witness.len() {
         return vec![format!("deser res=40 buf={}", hex(&sample_with_offset(witness[idx as usize])))];
+    }
+    if idx == 4 {
+        // a wrong magic that is not UTF-8 (the rejection must still be printable)
+        let mut b = sample_with_offset(0x3ff0000000000000);
+        b[36..40].copy_from_slice(&i32::from_be_bytes([0xff, 0xfe, 0x80, 0xc3]).to_le_bytes());
+        return vec![format!("deser res=40 buf={}", hex(&b))];
     }
     let n = rng.usize(1, 4);
     (0..n)
@@ -210,6 +227,16 @@ fn exec_deser_case(ops: &[String], run: &mut Run) {
             Err(e) => {
                 if want {
                     run.oracle_fail("valid_sample_rejected", "", &format!("valid sample rejected: {}", e));
+                }
+                // every rejection is logged by the run loop (`error!("Error deserializing sample: {}", e)`): both
+                // renderings must work for every error value
+                let shown = std::panic::catch_unwind(std::panic::AssertUnwindSafe(|| (format!("{e}"), format!("{e:?}"))));
+                if shown.is_err() {
+                    run.oracle_fail(
+                        "rejection_is_printable",
+                        "",
+                        &format!("formatting the rejection of this buffer panicked: size={:?} buf={}", size, hex(&buf)),
+                    );
                 }
                 // `SampleError` has no variant of its own for every kind of rejection in every version of
                 // the code, so the kind is read from the variant name
@@ -303,6 +330,11 @@ fn gen_socket_case(rng: &mut Rng, idx: u64, _run: &Run) -> Vec<String> {
         v.push(0);
         return vec![format!("dgram time={} bytes={}", 1u64 << 40, hex(&v))];
     }
+    if idx == 4 {
+        let mut b = sample_with_offset(0x3ff0000000000000);
+        b[36..40].copy_from_slice(&i32::from_be_bytes([0xff, 0xfe, 0x80, 0xc3]).to_le_bytes());
+        return vec![format!("dgram time={} bytes={}", 1u64 << 40, hex(&b))];
+    }
     let n = rng.usize(1, 5);
     (0..n)
         .map(|_| {
@@ -326,7 +358,17 @@ fn gen_socket_case(rng: &mut Rng, idx: u64, _run: &Run) -> Vec<String> {
         .collect()
 }
 
+/// the daemon runs with a tracing subscriber installed, so `error!(…)` in the run loop really formats its
+/// arguments; without one the macro is a no-op and a panicking `Display` would go unnoticed
+fn install_subscriber() {
+    static ONCE: std::sync::Once = std::sync::Once::new();
+    ONCE.call_once(|| {
+        let _ = tracing_subscriber::fmt().with_max_level(tracing::Level::ERROR).with_writer(std::io::sink).try_init();
+    });
+}
+
 fn exec_socket_case(ops: &[String], run: &mut Run) {
+    install_subscriber();
     let rt = tokio::runtime::Builder::new_current_thread().enable_all().build().unwrap();
     let index = ClockId::new();
     let clock_raw = Arc::new(AtomicU64::new(0));
